@@ -86,11 +86,11 @@ func record(seed int64, traces, n int, out, mode string) {
 		} else if mode == "dirty" {
 			clean = false
 		}
-		if mode == "shapes" {
+		if mode == "shapes" || mode == "jobshapes" {
 			clean = true
 		}
 		c := randomCfg(rng, clean)
-		if mode == "shapes" {
+		if mode == "shapes" || mode == "jobshapes" {
 			c.Queue = t % 2
 			c.CpMod = 0
 		}
@@ -106,11 +106,14 @@ func record(seed int64, traces, n int, out, mode string) {
 		if clean {
 			nclean++
 		}
-		withJobs := mode == "jobs" || (mode != "nojobs" && mode != "shapes" && rng.Intn(3) != 0)
+		withJobs := mode == "jobs" || mode == "jobshapes" || (mode != "nojobs" && mode != "shapes" && rng.Intn(3) != 0)
 		gen := genesisTxs(rng)
 		var prefix []op
 		if mode == "shapes" {
 			gen, prefix = shapesHistory(t)
+		}
+		if mode == "jobshapes" {
+			gen, prefix = jobShapesHistory(t)
 		}
 		if err := d.genesis(c, gen); err != nil {
 			vtrace.Broken("genesis: " + err.Error())
@@ -198,6 +201,34 @@ func shapesHistory(t int) ([]txop, []op) {
 	return gen, ops
 }
 
+// jobShapesHistory: engineered start of a history for C10 (seeded defect C10-G is of this kind): the snapshotted /
+// checkpointed root contains an account whose data trie was emptied (root hash = EmptyTrieHash) and an account with a
+// data trie; when the main trie has been copied and the data tries are being copied, the data trie is changed by a new
+// block and the chain is finalized (prune requests for the job's root arrive in that window); then the job runs to
+// its end and further jobs / blocks follow randomly.
+func jobShapesHistory(t int) ([]txop, []op) {
+	gen := []txop{{K: "bal", A: 1, V: 1}, {K: "set", A: 1, X: 0, V: 1}, {K: "bal", A: 2, V: 1},
+		{K: "set", A: 2, X: 0, V: 1}, {K: "set", A: 2, X: 1, V: 1}, {K: "set", A: 2, X: 2, V: 2}, {K: "bal", A: 3, V: 1}}
+	kind := "snap"
+	if t%2 == 1 {
+		kind = "cp"
+	}
+	ops := []op{
+		{Op: "commit", Txs: []txop{{K: "del", A: 1, X: 0}}}, // account 1: emptied data trie
+		{Op: "finalize"},
+		{Op: kind, Idx: -1},
+		{Op: "todata"},
+		{Op: "commit", Txs: []txop{{K: "set", A: 2, X: 1, V: 2}, {K: "del", A: 2, X: 2}}},
+		{Op: "finalize"},
+		{Op: "commit", Txs: []txop{}},
+		{Op: "finalize"},
+		{Op: "commit", Txs: []txop{}},
+		{Op: "finalize"},
+		{Op: "drain"},
+	}
+	return gen, ops
+}
+
 // doPicked executes a picked step; "step" releases a random parked goroutine
 func (d *driver) doPicked(o op, rng *rand.Rand) (err error) {
 	defer func() {
@@ -209,7 +240,7 @@ func (d *driver) doPicked(o op, rng *rand.Rand) (err error) {
 		ps := d.s.g.parked()
 		return d.release(ps[rng.Intn(len(ps))])
 	}
-	if o.Op == "snap" || o.Op == "cp" {
+	if (o.Op == "snap" || o.Op == "cp") && o.Idx == 0 {
 		return d.startJob(o.Op, rng.Intn(len(d.chain)))
 	}
 	return d.do(o, rng)
